@@ -66,14 +66,19 @@ def spec_fields(spec):
     return d
 
 
-def rerun(ctx, hb, work, sid, s):
-    """one scenario again, alone, with 4x the watchdog and settle pauses; returns a scenario dict or None"""
+def rerun(ctx, hb, work, sid, s, procs=None):
+    """one scenario again, alone, with 4x the watchdog and settle pauses; returns a scenario dict or None.
+    procs: GOMAXPROCS of the re-run (None = the machine's).  A failure that depends on WHEN a freshly started goroutine
+    first runs (a loop variable captured by `go func`, a send racing with a registration) shows under load and may not
+    show on an idle machine; one processor is a legitimate schedule on which such a goroutine runs late."""
     out = work + "/rerun.txt"
     if os.path.exists(out):
         os.remove(out)
     e = c13m.scratch_env(ctx, work)
     e["VERIF_TIMESCALE"] = "4"
     e["VERIF_WATCHDOG_MS"] = str(4 * int(os.environ.get("VERIF_WATCHDOG_MS", "10000")))
+    if procs:
+        e["GOMAXPROCS"] = str(procs)
     rc, log = C.sh([hb, "migrate", "rerun", out, sid, s["spec"]], env=e, timeout=1200)
     shutil.rmtree(work + "/scratch", ignore_errors=True)
     rows = C.read_tsv(out) if os.path.exists(out) else []
@@ -365,9 +370,9 @@ def stage(ctx):
         seen_keys.add(key)
         racing = "sched=free" in s["spec"]
         confirmed = None
-        for attempt in range(3 if racing else 1):
+        for procs in ([None, None, None] if racing else [None]) + [1, 2]:
             retries += 1
-            again = rerun(ctx, hb, work, sid, s)
+            again = rerun(ctx, hb, work, sid, s, procs)
             if again is None:
                 continue
             f2 = judge(ctx, sid, again, model, None, count=False)
@@ -381,7 +386,7 @@ def stage(ctx):
         if confirmed["what"] in ("died", "stuck"):
             st["deaths"] += 1
         rep = dict(confirmed["rep"])
-        rep.update({"expected": confirmed["expected"], "got": confirmed["got"], "confirmed_alone_with_4x_time_bounds": True})
+        rep.update({"expected": confirmed["expected"], "got": confirmed["got"], "confirmed_alone_with_4x_time_bounds": True, "confirmed_with_GOMAXPROCS": procs or "default"})
         if confirmed.get("no_failing_input"):
             rep["no_failing_input"] = True
         C.violation(ctx, "migrate-live:%s:%s" % (confirmed["what"], confirmed["short"]), confirmed["msg"], rep)
@@ -408,7 +413,7 @@ def stage(ctx):
         "other_calls_in_flight": infl,
         "several_callers_migrated_at_once": st["multi"],
         "timing_retries": retries, "timing_not_reproduced": dropped, "failing_scenarios_not_confirmed_after_enough_violations": skipped,
-        "timing_policy": "every failing scenario is run again alone with 4x watchdog and 4x settle pauses (racing free runs up to 3 times) and "
+        "timing_policy": "every failing scenario is run again alone with 4x watchdog and 4x settle pauses (racing free runs up to 3 times), then once on one and once on two processors (GOMAXPROCS: a failure that depends on when a freshly started goroutine first runs shows under load or on few processors) and "
                          "reported only if the same check fails again; waits are for events (frame seen by a reference server, goroutine parked at a "
                          "yield point) bounded by the watchdog, the remaining settle pauses (20/60/50 ms, 300 ms grace) are scaled in the re-run",
         "other_calls_in_flight_reading": "finished_unaided counts calls that came back within 300 ms of the migration without anybody answering them; "
